@@ -11,6 +11,22 @@ import (
 var alpha24 = []byte{'a', '1', '0', 'x', 'e', '.', '\'', '"', '`', '\\', '\n', ' ', '#', '-', '/', '*', 'r', 'b', '@', '<', '>', ';', '(', 0xff}
 var alpha12 = []byte{'a', '1', '.', '\'', '"', '`', '\\', '\n', '-', '/', '*', 'b'}
 
+// focused alphabets: longer strings over the few bytes that matter to one token class
+var alphaComment = []byte{'/', '*', '-', '#', '\n', 'a'}
+var alphaQuote = []byte{'\'', '"', '\\', 'a', '\n', 'r', 'b'}
+var alphaNumber = []byte{'0', '1', 'x', 'e', '.', '+', 'a', ' '}
+
+// focusedStrings enumerates all strings up to the tier's length over each focused alphabet.
+func focusedStrings(tier string, emit func([]byte)) {
+	n := 6
+	if tier == "thorough" {
+		n = 8
+	}
+	enumStrings(alphaComment, n, emit)
+	enumStrings(alphaQuote, n-1, emit)
+	enumStrings(alphaNumber, n-1, emit)
+}
+
 func enumStrings(alpha []byte, maxLen int, emit func([]byte)) {
 	var rec func(cur []byte, n int)
 	rec = func(cur []byte, n int) {
@@ -69,6 +85,7 @@ func genLex(w *bufio.Writer, tier string, r *rng) {
 	}
 	enumStrings(alpha24, n24, emit)
 	enumStrings(alpha12, n12, emit)
+	focusedStrings(tier, emit)
 	for _, s := range corpusStrings() {
 		emit([]byte(s))
 	}
